@@ -17,7 +17,7 @@ TInit == Init /\ l = 1
 E == Trace[l]
 IsEvent(e) == l <= Len(Trace) /\ Trace[l].ev = e /\ l' = l + 1
 
-TCall == IsEvent("call") /\ BeginOp([t |-> E.op.t, lin |-> E.op.lin, n |-> E.op.n, f |-> E.op.f])
+TCall == IsEvent("call") /\ BeginOp([t |-> E.op.t, lin |-> E.op.lin, n |-> E.op.n, f |-> E.op.f, file |-> E.op.file])
 
 TCb == /\ IsEvent("cb")
        /\ \/ E.kind = "restart" /\ pc = "restartcb" /\ old = E.g /\ RestartCb
